@@ -77,6 +77,15 @@ class C15(core.Check):
 
     def build_runs(self, files, main, isa_name, dirs, tags, heavy=False):
         runs, labels = [], []
+        # decoys: files carrying the names of the included files, with other contents, in the directories that serve as
+        # working directory in the cwd variation (they are on no search path, so they must never be picked up)
+        files = dict(files)
+        for rel in list(files):
+            if rel in (main, isa_name) or rel.startswith('elsewhere/'):
+                continue
+            for d_ in ('elsewhere', 'elsewhere/deeper'):
+                for nm in {rel, os.path.basename(rel)}:
+                    files.setdefault(f'{d_}/{nm}', '.byte $DE, $C0\ndecoy_label_in_cwd:\n.byte $1\n')
         for tag, ov in self.variations(None, files, dirs, heavy=heavy):
             for f in FORMATS:
                 absolute = ov.get('absolute')
